@@ -163,7 +163,7 @@ pub fn run(seed: u64, n: usize, out: &str, only: Option<usize>) {
         if code != expect {
             violation = Some(format!("maybenot_start returned {} but the Rust API's acceptance of the same arguments gives {}", code, expect));
         }
-        let mut rust_case = FwCase { machines: machines.clone(), fpad, fblk, t0: 0, calls: vec![], script: vec![], seed: 1 };
+        let mut rust_case = FwCase { machines: machines.clone(), fpad, fblk, t0: 0, calls: vec![], script: vec![], seed: 1, std: false };
         if started {
             ok_cases += 1;
             // null-pointer arguments of on_events
